@@ -211,6 +211,11 @@ func canonValue(v interface{}) interface{} {
 		if rv.IsNil() {
 			return nil
 		}
+		// (an unresolved Go object, e.g. what the library hands back beyond its
+		// depth limit: the type says what it is, its address is not an observation)
+		return fmt.Sprintf("%T", v)
+	case reflect.Struct, reflect.Map, reflect.Func, reflect.Chan, reflect.UnsafePointer:
+		return fmt.Sprintf("%T", v)
 	}
 	return fmt.Sprintf("%T:%v", v, v)
 }
